@@ -49,14 +49,19 @@ How the model reads the tables:
   (`tsCheck`).  The `def …` entries are the definitions of the verdict variables with their FULL
   guard chain (err conditions included).
 * `checksumSum`: per source, `filepath.Rel(t.Dir, f)` → `filepath.ToSlash` → hash, then the
-  content (`nameOf`, `stream`); `fingerOrder_checksumName_ok` pins the arguments.
+  content (`nameOf`, `stream`); `fingerOrder_checksumName_ok` pins the arguments.  Fix F8B: a SECOND
+  hasher gets, per source, the length of the name and the number of content bytes copied, as two
+  big-endian `uint64` (`binary.Write` of a `[2]uint64`: 8 bytes each — `lenTable`, `be64`); the checksum is `%x%x` of the first sum followed by `%016x` of the
+  second (`fpNow`); `fingerOrder_checksumFeed_ok` pins what goes to which hasher, in which order.
 * `checksumOnError` removes the file when the task has sources; so does `timestampOnError`
   (patched by TS3) with the marker (`onError`); neither consults `checker.dry`, but in dry mode
   `statusOnError` is unreachable in the model's fragment (prompt guard `!e.Dry`; `runCommand` has
   no failing `execext.RunCommand` when dry).
-* keys (fix N): checksum `stateFilename(t.Name())`, timestamp `stateFilename(t.Task)`; `stateFilename`
+* keys (fix N): timestamp `stateFilename(t.Task)`; `stateFilename`
   = `normalizeFilename` (regexp `[^A-z0-9]` → `-`) when that changes nothing, else normalised name +
-  `-` + `%016x` of `xxh3.HashString(name)` (`stateKey`).
+  `-` + `%016x` of `xxh3.HashString(name)` (`stateKey`).  Checksum (fix F8A): `checksumFilename(t)` =
+  `stateFilename(t.Task)` for a task without label, else `normalizeFilename(t.Label)` + `.` + `%016x`
+  of xxh3 of the length-prefixed pair `"%d:%s%s", len(t.Task), t.Task, t.Label` (`sumKey`, `pairEnc`).
 * `timestampIsUpToDate` (fix M): the marker is created (`!markerExists`) and moved to now only inside
   the closure `touchMarker` (the `func` entry; its body starts from an empty guard chain: nothing
   when `checker.dry`), which is called on the three exits where the task is going to run — nothing
@@ -139,27 +144,61 @@ theorem fingerOrder_checksumSum_ok : FingerOrder.checksumSum = [("Globs", ""),
   ("def ‹0›, ‹1› := Globs(t.Dir, t.Sources)", ""),
   ("xxh3.New", ""),
   ("def ‹2› := xxh3.New()", "!(‹1› != nil)"),
+  ("xxh3.New", ""),
+  ("def ‹3› := xxh3.New()", "!(‹1› != nil)"),
   ("filepath.Rel", "range ‹0›"),
-  ("io.CopyBuffer", "range ‹0›"),
   ("filepath.ToSlash", "range ‹0›"),
+  ("io.CopyBuffer", "range ‹0›"),
   ("os.Open", "range ‹0›"),
   ("io.CopyBuffer", "range ‹0›"),
+  ("binary.Write", "range ‹0›"),
   ("(xxh3.New).Sum128", ""),
-  ("def ‹3› := (xxh3.New).Sum128()", "!(‹1› != nil)"),
+  ("def ‹4› := (xxh3.New).Sum128()", "!(‹1› != nil)"),
   ("fmt.Sprintf", ""),
-  ("return fmt.Sprintf(\"%x%x\", ‹3›.Hi, ‹3›.Lo), nil", "")] := by rfl
+  ("(xxh3.New·1).Sum64", ""),
+  ("return fmt.Sprintf(\"%x%x%016x\", ‹4›.Hi, ‹4›.Lo, (xxh3.New·1).Sum64()), nil", "")] := by rfl
 
 /-- what is written into the hash before a file's content: `nameOf` = the slash path relative to
 `t.Dir` (the absolute path itself if `filepath.Rel` fails, which it cannot for a match below
-`t.Dir`).  One fact with shared placeholders: ‹0› the name, ‹2› the source file of the loop -/
+`t.Dir`).  Facts with shared placeholders (also shared with `checksumFeed`): ‹0› the name, ‹2› the
+source file of the loop -/
 theorem fingerOrder_checksumName_ok :
     FingerOrder.checksumName = ["rel: ‹0›, ‹1› := filepath.Rel(t.Dir, ‹2›)", "fallback: ‹0› = ‹2›",
-      "hashed: strings.NewReader(filepath.ToSlash(‹0›))"] := by decide
+      "slash: ‹0› = filepath.ToSlash(‹0›)", "hashed: strings.NewReader(‹0›)"] := by decide
+
+/-- **what is fed to which hasher** (fix F8B; placeholders shared with `checksumName`: ‹0› the name;
+a hasher is printed by its origin also in argument position: `(xxh3.New)` the first local made by
+`xxh3.New`, `(xxh3.New·1)` the second).  Per source, in this order: the name and then the file ‹6›
+are copied into the FIRST hasher (`stream`), the second copy yielding the byte count ‹5›; the length
+of the name and that byte count are written, as two big-endian `uint64` — 8 bytes each —, to the
+SECOND hasher (`lenTable`, `be64`); the checksum is `%x%x` of the first hasher's 128-bit sum followed
+by `%016x` of the second's 64-bit sum (`fpNow`).  On a tree without the fix the list has three entries
+(no length record, no second sum): the obligation breaks; so it does when the length record is
+dropped, reordered, written to the first hasher, or loses one of its two numbers. -/
+theorem fingerOrder_checksumFeed_ok :
+    FingerOrder.checksumFeed = ["feed: _, ‹3› := io.CopyBuffer((xxh3.New), strings.NewReader(‹0›), ‹4›)",
+      "feed: ‹5›, ‹1› := io.CopyBuffer((xxh3.New), ‹6›, ‹4›)",
+      "feed: _ = binary.Write((xxh3.New·1), binary.BigEndian, [2]uint64{uint64(len(‹0›)), uint64(‹5›)})",
+      "sum: fmt.Sprintf(\"%x%x%016x\", ((xxh3.New).Sum128).Hi, ((xxh3.New).Sum128).Lo, (xxh3.New·1).Sum64())"] := by decide
 
 theorem fingerOrder_checksumPath_ok : FingerOrder.checksumPath = [("filepath.Join", ""),
-  ("stateFilename", ""),
-  ("t.Name", ""),
-  ("return filepath.Join(checker.tempDir, \"checksum\", stateFilename(t.Name()))", "")] := by rfl
+  ("checksumFilename", ""),
+  ("return filepath.Join(checker.tempDir, \"checksum\", checksumFilename(t))", "")] := by rfl
+
+/-- `checksumFilename` (fix F8A): the checksum state belongs to the pair (task name, label) — without
+label `stateFilename(t.Task)` (the file an unlabelled task always had); with a label the normalised
+label, a `.` (which `stateFilename` never produces) and `%016x` of xxh3 of the LENGTH-PREFIXED pair
+`"%d:%s%s", len(t.Task), t.Task, t.Label` (`sumKey`, `pairEnc`; the model's tag is the hashed string
+itself: the 64-bit hash is idealised as injective).  On a tree without the fix the table is empty and
+`checksumPath` / `checksumKey` name `stateFilename(t.Name())`: three obligations break. -/
+theorem fingerOrder_checksumFilename_ok : FingerOrder.checksumFilename = [("stateFilename", "t.Label == \"\""),
+  ("return stateFilename(t.Task)", "t.Label == \"\""),
+  ("fmt.Sprintf", "!(t.Label == \"\")"),
+  ("def ‹0› := fmt.Sprintf(\"%d:%s%s\", len(t.Task), t.Task, t.Label)", "!(t.Label == \"\")"),
+  ("fmt.Sprintf", "!(t.Label == \"\")"),
+  ("normalizeFilename", "!(t.Label == \"\")"),
+  ("xxh3.HashString", "!(t.Label == \"\")"),
+  ("return fmt.Sprintf(\"%s.%016x\", normalizeFilename(t.Label), xxh3.HashString(‹0›))", "!(t.Label == \"\")")] := by rfl
 
 theorem fingerOrder_timestampIsUpToDate_ok : FingerOrder.timestampIsUpToDate = [("return false, nil", "len(t.Sources) == 0"),
   ("Globs", "!(len(t.Sources) == 0)"),
@@ -260,7 +299,7 @@ theorem fingerOrder_checksumRegexp_ok : FingerOrder.checksumRegexp = "[^A-z0-9]"
 
 theorem fingerOrder_normalizeReplacement_ok : FingerOrder.normalizeReplacement = "-" := by rfl
 
-theorem fingerOrder_checksumKey_ok : FingerOrder.checksumKey = "stateFilename(t.Name())" := by rfl
+theorem fingerOrder_checksumKey_ok : FingerOrder.checksumKey = "checksumFilename(t)" := by rfl
 
 theorem fingerOrder_checksumDir_ok : FingerOrder.checksumDir = "checksum" := by rfl
 
